@@ -37,7 +37,7 @@ func (r *Run) condShapesRec(fd *FuncDecl, out map[string]int, seen map[*FuncDecl
 				return
 			}
 			for _, lf := range leaves {
-				sh := u.leafShape(lf.expr, lf.failTrue)
+				sh := u.condShapeCanonical(lf.expr)
 				// attach resolved callees of calls in the leaf
 				var cs []string
 				ast.Inspect(lf.expr, func(n ast.Node) bool {
@@ -162,3 +162,40 @@ func keysOfInt(m map[string]int) []string {
 }
 
 var _ = types.Universe
+
+// condShapeCanonical renders a boolean leaf independent of which branch it selects: `a != b` and
+// `a == b`, `a >= b` and `a < b`, `a > b` and `a <= b`, `!f()` and `f()` are the same test with the
+// branches swapped. Operand orientation of orderings is kept (`a < b` is not `b < a`).
+func (u *Unit) condShapeCanonical(e ast.Expr) string {
+	e = ast.Unparen(e)
+	for {
+		if ue, ok := e.(*ast.UnaryExpr); ok && ue.Op == token.NOT {
+			e = ast.Unparen(ue.X)
+			continue
+		}
+		break
+	}
+	if be, ok := e.(*ast.BinaryExpr); ok {
+		l, r := u.shapeOf(be.X), u.shapeOf(be.Y)
+		switch be.Op {
+		case token.EQL, token.NEQ:
+			if l > r {
+				l, r = r, l
+			}
+			s := l + "==" + r
+			if strings.Contains(s, "<error>") && strings.Contains(s, "nil") {
+				return "err"
+			}
+			return s
+		case token.LSS, token.GEQ:
+			return l + "<" + r
+		case token.LEQ, token.GTR:
+			return l + "<=" + r
+		}
+		return u.shapeOf(be)
+	}
+	if _, ok := e.(*ast.CallExpr); ok {
+		return "call"
+	}
+	return u.shapeOf(e)
+}
